@@ -188,9 +188,9 @@ func init() {
 	}
 	properties["C04"] = &Property{
 		ID: "C04", LeanMods: []string{"CrsProps.C04"},
-		Corr: "K4 (CmdLine.regexpStr/computeSuffix vs Crs.Asm.regexpStr, four configuration classes incl. absent file), K5",
-		Rule: "command words over letters, digits, `.`, `-`, `_`, space with optional @, ~, \\@, \\~ in unix and windows blocks, alone / mixed with other words / nested in an assemble block, five configurations (absent, CRS-like, partial); for each word the word itself and 11 variants with evasion strings drawn from the configured pattern's own syntax tree must be matched; plus programs with cmdline blocks compared with the plain reading; non-trivial = every word; distinct by (word, shell, configuration, placement)",
-		Gen:  genC04,
+		Corr:   "K4 (CmdLine.regexpStr/computeSuffix vs Crs.Asm.regexpStr, four configuration classes incl. absent file), K5",
+		Rule:   "command words over letters, digits, `.`, `-`, `_`, space with optional @, ~, \\@, \\~ in unix and windows blocks, alone / mixed with other words / nested in an assemble block, five configurations (absent, CRS-like, partial); for each word the word itself and 11 variants with evasion strings drawn from the configured pattern's own syntax tree must be matched; plus programs with cmdline blocks compared with the plain reading; non-trivial = every word; distinct by (word, shell, configuration, placement)",
+		Gen:    genC04,
 		Assume: []string{"configured patterns are closed expressions (no top-level alternation, no inline flags): they are pasted as text by design"},
 	}
 }
